@@ -383,6 +383,24 @@ func (cr *checkRun) replayDirect(r *ProofResult, o *Obligation, rf *ReplayFile, 
 	if pkg == nil {
 		return false
 	}
+	// A direct replay calls the function on inputs rebuilt from the model. That is only meaningful if
+	// every input is legal: a function whose contract has preconditions over its arguments (object
+	// invariants such as uploaderOK(u)) cannot be replayed this way - the rebuilt objects would be
+	// partial and any panic they cause would be blamed on the obligation. Preconditions that only
+	// mention ghost state or the 4 GiB scoping bound are fine.
+	if c := p.con; c != nil {
+		for _, rq := range c.Requires {
+			if strings.Contains(rq.Src, "$") && !strings.ContainsAny(strings.ReplaceAll(rq.Src, "$", ""), "(") {
+				continue
+			}
+			if strings.Contains(rq.Src, "< 1<<32") {
+				continue
+			}
+			rf.Note = "no direct replay: the function has preconditions over its arguments (" + rq.Src + "); the model is recorded"
+			rf.ReplayKind = "none"
+			return false
+		}
+	}
 	switch o.Kind {
 	case "bounds", "slice", "nil", "div", "panic", "makeslice", "assertT", "nilmap", "shift":
 	default:
